@@ -43,5 +43,17 @@ Next == /\ ~done
                   Emit([op |-> "iv.approx", mode |-> "ulps",
                         a |-> Iv(ka, LoU(0), HiU(0)), b |-> Iv(kb, LoU(d1), HiU(d2)),
                         eps |-> 0, max_ulps |-> u])
+             \* both bounds near the same value: an upper and a lower one-sided interval (or a degenerate
+             \* two-sided one) then have approximately equal bounds but must still not compare equal
+             /\ (d1 <= d2) => \A n \in {1, 4, 7} :
+                  /\ Emit([op |-> "iv.approx", mode |-> "abs",
+                           a |-> Iv(ka, LoV(0), LoV(0)), b |-> Iv(kb, LoV(d1), LoV(d2)),
+                           eps |-> [n |-> n, p |-> -11]])
+                  /\ Emit([op |-> "iv.approx", mode |-> "rel",
+                           a |-> Iv(ka, LoV(0), LoV(0)), b |-> Iv(kb, LoV(d1), LoV(d2)),
+                           eps |-> 0, max_rel |-> [n |-> n, p |-> -11]])
+                  /\ Emit([op |-> "iv.approx", mode |-> "ulps",
+                           a |-> Iv(ka, LoU(0), LoU(0)), b |-> Iv(kb, LoU(d1), LoU(d2)),
+                           eps |-> 0, max_ulps |-> n \div 2])
 Spec == Init /\ [][Next]_done
 =============================================================================
